@@ -136,7 +136,13 @@ def plan(tier, seed):
     n_chunks = 32 if quick else 96
     cases = directed + rand
     # in the quick tier only a few diverging pairs per chunk are peeled (each level costs a full re-run of the pair)
-    return [{"name": "directed+random", "cases": cases[i::n_chunks], "max_peeled_cases": (1 if i % 2 == 0 else 0) if quick else 2} for i in range(n_chunks)]
+    # diagnosis aid: C16_ASSUME_FIXES=<repair,...> runs the whole workload with these candidate repairs monkeypatched from the
+    # start ("is anything left once the known sources are repaired?"); never set in a normal run
+    import os
+
+    assume = [f for f in os.environ.get("C16_ASSUME_FIXES", "").split(",") if f]
+    return [{"name": "directed+random", "cases": cases[i::n_chunks], "max_peeled_cases": (1 if i % 2 == 0 else 0) if quick else 2,
+             "assume_fixes": assume} for i in range(n_chunks)]
 
 
 def _spec(ctx, case, proj, tag):
@@ -171,7 +177,7 @@ def _run(ctx, case, proj, tag, hashseed, fixes, breaks):
     return res, why
 
 
-def run_case(ctx, case, idx, proj, breaks=None, peel_budget=None):
+def run_case(ctx, case, idx, proj, breaks=None, peel_budget=None, assume_fixes=()):
     """peel_budget: one-element list holding the number of cases of this chunk that may still be peeled (None = no cap).
 
     Level 0 is the judged comparison.  Further levels re-run the case with candidate repairs monkeypatched (cumulative):
@@ -179,13 +185,22 @@ def run_case(ctx, case, idx, proj, breaks=None, peel_budget=None):
       * a divergence of an unrecognised mechanism (typically ``same-draws-different-test:*``: the first visible effect is far
         from its cause) is held back as *pending* and the known repairs are applied one by one: if it disappears with a
         repair it is attributed to that repair's mechanism (attribution by intervention), if it survives all of them it is
-        reported under its own key - a new source.
+        reported under its own key - a new source.  If several repairs were needed before the case became clean the key is
+        ``explained-by-known-sources:<repair>+<repair>``.
     """
     from vlib.monitors import rngtap
 
     tag0 = f"{case['sut']}:{case['algo']}:seed={case['seed']}:{case['budget']}:{case['ag']}"
-    hss = case["hashseeds"]
-    fixes: list[str] = []
+    # "random" = an arbitrary 32-bit hash seed; drawn here (from the check seed and the case) instead of by the interpreter so
+    # that a witness can be replayed
+    from vlib import core
+
+    hrng = random.Random(int(core.stable_hash([case, ctx.seed]), 16))
+    labels = list(case["hashseeds"])
+    hss = [str(hrng.randrange(1000, 4294967295)) if h == "random" else h for h in labels]
+    case = dict(case, hashseeds=hss, hashseed_labels=labels)
+    reexamination_incomplete = False
+    fixes: list[str] = list(assume_fixes)
     seen_keys: list[str] = []
     pending: list[tuple] = []   # (key, desc, case-dict) of unrecognised mechanisms not yet attributed
 
@@ -202,6 +217,7 @@ def run_case(ctx, case, idx, proj, breaks=None, peel_budget=None):
                 ctx.inconclusive_because(f"{tag0} hashseed={hs} fixes={fixes}: {why}")
             runs.append(None if why else res)
         if runs[0] is None:
+            reexamination_incomplete = level > 0
             break
         next_fix = None
         diverging = 0
@@ -221,7 +237,7 @@ def run_case(ctx, case, idx, proj, breaks=None, peel_budget=None):
             if level == 0:
                 cls = [f"algo:{case['algo']}", f"ag:{case['ag']}", "budget:iterations" if "maximum_iterations" in case["budget"] else "budget:executions",
                        "pair:same-hashseed" if pair[0] == pair[1] else "pair:different-hashseed"]
-                if "random" in pair:
+                if "random" in (labels[0], labels[j]):
                     cls.append("hashseed:random")
                 cls.append(f"outcome:{dg['kind']}" if dg["kind"] in ("same", "sut-hash-order") or dg["files_same"] else "outcome:files-differ")
                 ctx.ok(cls=cls, distinct={k: case[k] for k in ("sut", "algo", "seed", "budget", "ag")})
@@ -261,16 +277,23 @@ def run_case(ctx, case, idx, proj, breaks=None, peel_budget=None):
                 next_fix = PEEL[key]
         if diverging == 0:
             if pending and fixes and unjudged == 0:
-                # the held-back divergence is gone now that fixes[-1] is applied
-                attributed = KEY_OF_FIX[fixes[-1]]
+                # the held-back divergence is gone with the repairs applied so far.  One repair: its mechanism.  Several (another
+                # known divergence showed up first at an intermediate level and may have masked it): no single culprit can be
+                # named without more runs, so the key names the set of known sources that explains it.
+                if len(fixes) == 1:
+                    attributed = KEY_OF_FIX[fixes[0]]
+                else:
+                    attributed = "explained-by-known-sources:" + "+".join(sorted(fixes))
                 for key, desc, wcase in pending:
                     if desc is None:
                         ctx.anomaly(f"latent:{attributed}")
                         ctx.count("latent_divergences_attributed_by_intervention")
                         continue
-                    wcase = dict(wcase, observed_as=key, disappears_with=fixes[-1])
-                    emit(attributed, desc + f"; observed as {key}, gone when candidate repair {fixes[-1]} is applied", wcase)
+                    wcase = dict(wcase, observed_as=key, disappears_with=list(fixes))
+                    emit(attributed, desc + f"; observed as {key}, gone when candidate repair(s) {fixes} are applied", wcase)
                 pending = []
+            elif pending:
+                reexamination_incomplete = True   # the re-run could not be judged (load / excused / failed run)
             break
         if next_fix is None and pending:
             next_fix = next((f for f in FIX_ORDER if f not in fixes), None)
@@ -284,7 +307,12 @@ def run_case(ctx, case, idx, proj, breaks=None, peel_budget=None):
         fixes.append(next_fix)
     # whatever is still pending survived every candidate repair (or could not be re-examined): its own mechanism
     for key, desc, wcase in pending:
-        if desc is None:
+        if reexamination_incomplete:
+            # neither attributed to a known source nor shown to survive the repairs: no verdict on this mechanism
+            ctx.anomaly(f"unattributed-reexamination-incomplete:{key}")
+            if desc is not None:
+                ctx.inconclusive_because(f"{tag0}: files differ ({key}) but the re-run with candidate repairs {fixes} could not be judged")
+        elif desc is None:
             ctx.anomaly(f"latent-unattributed:{key}")
         else:
             emit(key, desc, wcase)
@@ -296,7 +324,7 @@ def run_chunk(spec, ctx):
     proj = sut_corpus.copy_to(ctx.scratch / "proj", _suts())
     peel_budget = [spec["max_peeled_cases"]] if spec.get("max_peeled_cases") is not None else None
     for i, case in enumerate(spec["cases"]):
-        run_case(ctx, case, i, proj, breaks=spec.get("seeded_break"), peel_budget=peel_budget)
+        run_case(ctx, case, i, proj, breaks=spec.get("seeded_break"), peel_budget=peel_budget, assume_fixes=spec.get("assume_fixes") or ())
     import resource
 
     ru = resource.getrusage(resource.RUSAGE_CHILDREN)
